@@ -2,6 +2,7 @@ import Driver.Machine
 import Driver.Sut.VClock
 import Driver.Sut.Lattice
 import Driver.Sut.Orswot
+import Driver.Sut.MVReg
 /-! Line-protocol driver: reads a command script on stdin, prints the model's canonical observation
 (and, after ` | `, the value of the specification functions) for every command. -/
 open Driver
@@ -10,6 +11,8 @@ def newCase (ty : String) (n : Nat) : Option Machine :=
   match ty with
   | "vclock" => some (Machine.mk' vclockOps n)
   | "orswot" => some (Machine.mk' orswotOps n)
+  | "mvreg" => some (Machine.mk' (mvregOps true) n)
+  | "mvreg_raw" => some (Machine.mk' (mvregOps false) n)
   | "gcounter" => some (Machine.mk' gcounterOps n)
   | "pncounter" => some (Machine.mk' pncounterOps n)
   | "gset" => some (Machine.mk' gsetOps n)
